@@ -30,6 +30,8 @@ var (
 var (
 	// ErrNotInteger is returned when a stored value is not an integer.
 	ErrNotInteger = errors.New("value is not an integer or out of range")
+	// ErrNotFloat is returned when a score is not a valid float (NaN is not a score).
+	ErrNotFloat = errors.New("value is not a valid float")
 	// ErrOverflow is returned when an increment or decrement would overflow.
 	ErrOverflow = errors.New("increment or decrement would overflow")
 )
